@@ -21,6 +21,14 @@ func init() {
 		return r.Violations() > 0, fmt.Sprintf("%d violations on this document", r.Violations())
 	}
 	Replayers["C17"] = func(rp *eng.Replay) (bool, string) {
+		if rp.Entry == "StdLibCompatibleMap" || rp.Entry == "StdLibCompatibleSlice" {
+			str := string(rp.InputB64)
+			want := string(ref.SanitizeUTF8(rp.InputB64))
+			m := rjson.StdLibCompatibleMap(map[string]interface{}{str: []interface{}{str, map[string]interface{}{str: str}}})
+			sl := rjson.StdLibCompatibleSlice([]interface{}{str, map[string]interface{}{str: 1.0}})
+			ok := ref.SameTree(m, map[string]interface{}{want: []interface{}{want, map[string]interface{}{want: want}}}) && ref.SameTree(sl, []interface{}{want, map[string]interface{}{want: 1.0}})
+			return !ok, fmt.Sprintf("map %s slice %s", treeStr(m), treeStr(sl))
+		}
 		bad, exp, got := checkCompat(rp.InputB64)
 		return bad != "", fmt.Sprintf("%s expected %s got %s", bad, exp, got)
 	}
@@ -117,14 +125,13 @@ func c17(r *eng.Run) {
 	// class) x all 256 bytes, to closure
 	seen := map[string]bool{}
 	pending := func(w []byte) string {
-		// longest suffix of w (<= 3 bytes) that is a proper prefix of a valid sequence
-		for k := 3; k >= 1; k-- {
-			if k > len(w) {
-				continue
-			}
-			suf := w[len(w)-k:]
-			if isProperPrefix(suf) {
-				return eng.ClassSuffix(suf, k)
+		// Key = byte classes of the suffix that starts at the last lead byte (>= 0xC0) within the
+		// last 3 bytes. This does NOT rely on the reference's notion of a valid prefix, so an
+		// implementation that wrongly treats e.g. F0 80 as the start of a sequence is still
+		// followed through every continuation.
+		for k := 1; k <= 3 && k <= len(w); k++ {
+			if w[len(w)-k] >= 0xC0 {
+				return eng.ClassSuffix(w, k)
 			}
 		}
 		return ""
@@ -139,7 +146,9 @@ func c17(r *eng.Run) {
 		for b := 0; b < 256; b++ {
 			c := append(append([]byte(nil), w...), byte(b))
 			one(c, "dfa")
-			one(append(append([]byte("ok"), c...), "é!"...), "dfa-embedded")
+			if len(c) <= 2 || b%16 == 0 {
+				one(append(append([]byte("ok"), c...), "é!"...), "dfa-embedded")
+			}
 			trans++
 			k := pending(c)
 			if !seen[k] && len(c) < 12 {
@@ -148,6 +157,32 @@ func c17(r *eng.Run) {
 			}
 		}
 	}
+	// position sweep: one high byte at every offset of strings of length 1..33 (chunked fast
+	// paths), as plain string, map key and slice element
+	sweep := 0
+	for L := 1; L <= 33; L++ {
+		for pos := 0; pos < L; pos++ {
+			for _, hb := range []byte{0x80, 0xBF, 0xC3, 0xE2, 0xF0, 0xFF} {
+				b := bytes.Repeat([]byte("a"), L)
+				b[pos] = hb
+				one(b, "position-sweep")
+				sweep++
+				str := string(b)
+				want := string(ref.SanitizeUTF8(b))
+				m := rjson.StdLibCompatibleMap(map[string]interface{}{str: []interface{}{str, map[string]interface{}{str: str}}})
+				sl := rjson.StdLibCompatibleSlice([]interface{}{str, map[string]interface{}{str: 1.0}})
+				wantM := map[string]interface{}{want: []interface{}{want, map[string]interface{}{want: want}}}
+				wantS := []interface{}{want, map[string]interface{}{want: 1.0}}
+				if !ref.SameTree(m, wantM) {
+					r.Violation(eng.Replay{Engine: "bytes", Entry: "StdLibCompatibleMap", Sig: fmt.Sprintf("map-key-position/len=%d/pos=%d/%#x", L, pos, hb), InputB64: b, Expected: treeStr(wantM), Got: treeStr(m)})
+				}
+				if !ref.SameTree(sl, wantS) {
+					r.Violation(eng.Replay{Engine: "bytes", Entry: "StdLibCompatibleSlice", Sig: fmt.Sprintf("slice-position/len=%d/pos=%d/%#x", L, pos, hb), InputB64: b, Expected: treeStr(wantS), Got: treeStr(sl)})
+				}
+			}
+		}
+	}
+	r.Set("position_sweep_strings", sweep)
 	r.Set("states", states)
 	r.Set("transitions", trans)
 	r.Set("traces_validated_against_impl", int(evals))
